@@ -200,6 +200,9 @@ func (m *mutator) walk(t reflect.Type, v reflect.Value, node any, path []any, nu
 		if len(arr) > 0 {
 			m.add("array-length", path, func(old any) any { a := old.([]any); return append(a, cloneJSON(a[0])) })
 			m.add("array-length", path, func(old any) any { a := old.([]any); return a[:len(a)-1] })
+			if len(arr) > 1 {
+				m.add("array-length", path, func(old any) any { return []any{} }) // the empty array is a wrong length too
+			}
 		}
 		for i := range arr {
 			m.walk(t.Elem(), v.Index(i), arr[i], child(path, i), nilable(t.Elem()))
